@@ -147,6 +147,9 @@ def Hist.endStep (h : Hist) (syncRejected : Option Nat) : Hist × List String :=
 
 /-- C02: the counters and peer views printed by the implementation equal the history fold. -/
 def Hist.checkObs (h : Hist) (l : IO.ImplLine) : List String :=
+  -- C01: every id handed out and not yet ended by a terminal event is still pending in the Swarm
+  (if l.pi + l.po = h.count (fun s => match s with | .pendOut _ | .pendIn => true | _ => false) then []
+   else ["C01:pending_id_vanished_without_terminal_event"]) ++
   (if l.pi = h.count (· == .pendIn) then [] else ["C02:pending_incoming"]) ++
   (if l.po = h.count (fun s => match s with | .pendOut _ => true | _ => false) then [] else ["C02:pending_outgoing"]) ++
   (if l.ei = h.count (fun s => match s with | .est _ false => true | _ => false) then [] else ["C02:established_incoming"]) ++
